@@ -11,6 +11,11 @@ fn main() {
     println!("compile 070 ({} lines): {:.3} ms", text.lines().count(), per * 1e3);
     let t = Instant::now();
     for _ in 0..n {
+        minigo::compile_on_this_thread(&text).ok().unwrap();
+    }
+    println!("compile 070 same thread: {:.3} ms", t.elapsed().as_secs_f64() / n as f64 * 1e3);
+    let t = Instant::now();
+    for _ in 0..n {
         minigo::compile("package main\nfunc main() {}\n").ok().unwrap();
     }
     println!("compile empty: {:.3} ms", t.elapsed().as_secs_f64() / n as f64 * 1e3);
